@@ -493,6 +493,50 @@ def shard(job) -> dict:
                         for kind, msg in run_header(c):
                             acc.violation({"part": "header", "fail": kind, "namesweep": True},
                                           f"{msg} case={c}", c)
+    elif job[0] == "emptyframes":
+        # without strict checking the logical type in the header never influences what is
+        # parsed: streams that differ in that field only give the same groups
+        from mc import jwire  # noqa: PLC0415
+
+        for api in ("generic", "rdflib"):
+            for pt in (1, 2):
+                for shape in ("options-alone", "empty-middle", "entries-only-frame"):
+                    seen = {}
+                    for lt in [x for x in LOGICAL if pair_allowed(pt, x)]:
+                        o = jwire.mkrow("options", {"physical_type": pt, "logical_type": lt,
+                                                    "max_name_table_size": 8, "version": 1})
+                        st = ({"s": ("bnode", "a"), "p": ("bnode", "b"), "o": ("bnode", "c")}
+                              if pt == 1 else
+                              {"s": ("bnode", "a"), "p": ("bnode", "b"), "o": ("bnode", "c"),
+                               "g": ("bnode", "g")})
+                        row = jwire.mkrow("triple" if pt == 1 else "quad", st)
+                        nm = jwire.mkrow("name", {"id": 0, "value": "http://a/x"})
+                        frames = {"options-alone": [[o], [row]],
+                                  "empty-middle": [[o, row], [], [row]],
+                                  "entries-only-frame": [[o, row], [nm], [row]]}[shape]
+                        data = jwire.write_delimited([jwire.enc_frame(f) for f in frames])
+                        acc.evals += 1
+                        acc.nontrivial += 1
+                        try:
+                            import io as _io  # noqa: PLC0415
+
+                            if api == "generic":
+                                from pyjelly.integrations.generic.parse import (  # noqa: PLC0415
+                                    parse_jelly_grouped,
+                                )
+                            else:
+                                from pyjelly.integrations.rdflib.parse import (  # noqa: PLC0415
+                                    parse_jelly_grouped,
+                                )
+                            groups = [len(list(c)) for c in parse_jelly_grouped(_io.BytesIO(data))]
+                            seen[lt] = ("ok", tuple(groups))
+                        except Exception as e:  # noqa: BLE001
+                            seen[lt] = ("raised", type(e).__name__)
+                    if len(set(seen.values())) > 1:
+                        c = {"part": "emptyframes", "api": api, "physical": pt, "shape": shape}
+                        acc.violation({"part": "emptyframes", "fail": "logical-type-matters"},
+                                      f"{api} grouped parser, {shape}: result per declared logical "
+                                      f"type {seen} case={c}", c)
     elif job[0] == "filehelpers":
         for c in filehelper_cases():
             acc.evals += 1
@@ -560,6 +604,7 @@ def run(ctx) -> None:
         for lo, hi in pool.split_range(n, 24):
             jobs.append(("header", api, lo, hi, names))
     jobs.append(("derived",))
+    jobs.append(("emptyframes",))
     jobs += [("namesweep", lo, lo + 43) for lo in range(0, 301, 43)]
     jobs.append(("flowtype",))
     jobs.append(("nobindings",))
@@ -599,4 +644,6 @@ def replay(case: dict) -> list:
         return [m for _, m in run_nobindings(case)]
     if case.get("part") == "flowtype":
         return [m for _, m in run_flowtype(case)]
+    if case.get("part") == "emptyframes":
+        return [v["what"] for v in shard(("emptyframes",))["violations"] if v["case"] == case]
     return [m for _, m in run_parse_case(case)]
